@@ -433,51 +433,68 @@ Proof.
 Qed.
 
 (* nothing before shutdown is a lifecycle event or a socket close *)
-Lemma run_steps_pre cf ps st steps l : delta_ok q_pre l (fst (run_steps cf ps st steps l)).
+Lemma run_steps_pre cf ps st dr steps l : delta_ok q_pre l (fst (run_steps cf ps st dr steps l)).
 Proof.
-  revert st l. induction steps as [|s t IH]; intros st l; cbn [run_steps]; [apply dok_refl|].
+  revert st dr l. induction steps as [|s t IH]; intros st dr l; cbn [run_steps]; [apply dok_refl|].
   destruct st as [st0|]; destruct s as [r c|raw parsed|raw]; try apply IH.
-  - pose proof (on_client_data_pre cf ps st0 raw parsed l) as H.
+  - destruct dr; [apply IH|].
+    pose proof (on_client_data_pre cf ps st0 raw parsed l) as H.
     destruct (on_client_data cf ps st0 raw parsed l) as [l1 [st1|st1 f]]; cbn [fst] in *.
     + eapply dok_trans; [exact H|apply IH].
-    + eapply dok_trans; [exact H|apply handle_data_end_pre].
+    + destruct (escapes f); cbn [fst].
+      * eapply dok_trans; [exact H|apply handle_data_end_pre].
+      * eapply dok_trans; [exact H|]. eapply dok_trans; [apply handle_data_end_pre|apply IH].
   - destruct (st_upstream st0); [|apply IH].
     pose proof (on_upstream_data_pre ps st0 raw l) as H.
     destruct (on_upstream_data ps st0 raw l) as [l1 [st1|st1 f]]; cbn [fst] in *.
     + eapply dok_trans; [exact H|apply IH].
     + eapply dok_trans; [exact H|apply upstream_data_end_pre].
-  - pose proof (on_request_complete_pre cf ps r c l) as H.
+  - destruct dr; [apply IH|].
+    pose proof (on_request_complete_pre cf ps r c l) as H.
     destruct (on_request_complete cf ps r c l) as [l1 [st1|st1 f]]; cbn [fst] in *.
     + eapply dok_trans; [exact H|apply IH].
-    + eapply dok_trans; [exact H|apply handle_data_end_pre].
+    + destruct (escapes f); cbn [fst].
+      * eapply dok_trans; [exact H|apply handle_data_end_pre].
+      * eapply dok_trans; [exact H|]. eapply dok_trans; [apply handle_data_end_pre|apply IH].
 Qed.
 
 (* HttpProxyPlugin exists at shutdown iff some first request completed *)
 Definition is_first (s : step) : bool := match s with SFirst _ _ => true | _ => false end.
 
 Lemma run_steps_none cf ps steps l :
-  existsb is_first steps = false -> run_steps cf ps None steps l = (l, None).
+  existsb is_first steps = false -> run_steps cf ps None false steps l = (l, None).
 Proof.
   revert l. induction steps as [|s t IH]; intros l H; [reflexivity|]. cbn [existsb] in H.
   apply orb_false_iff in H as [Hs Ht]. destruct s; try discriminate; cbn [run_steps]; now apply IH.
 Qed.
 
-Lemma run_steps_some_stays cf ps st0 steps l : exists st, snd (run_steps cf ps (Some st0) steps l) = Some st.
+Lemma run_steps_some_stays cf ps st0 dr steps l : exists st, snd (run_steps cf ps (Some st0) dr steps l) = Some st.
 Proof.
-  revert st0 l. induction steps as [|s t IH]; intros st0 l; cbn [run_steps]; [now exists st0|].
+  revert st0 dr l. induction steps as [|s t IH]; intros st0 dr l; cbn [run_steps]; [now exists st0|].
   destruct s as [r c|raw parsed|raw].
   - apply IH.
-  - destruct (on_client_data cf ps st0 raw parsed l) as [l1 [st1|st1 f]]; [apply IH|now exists st1].
+  - destruct dr; [apply IH|].
+    destruct (on_client_data cf ps st0 raw parsed l) as [l1 [st1|st1 f]]; [apply IH|].
+    destruct (escapes f); [now exists st1|apply IH].
   - destruct (st_upstream st0); [|apply IH].
     destruct (on_upstream_data ps st0 raw l) as [l1 [st1|st1 f]]; [apply IH|now exists st1].
 Qed.
 
 Lemma run_steps_initialised cf ps steps l :
-  existsb is_first steps = true -> exists st, snd (run_steps cf ps None steps l) = Some st.
+  existsb is_first steps = true -> exists st, snd (run_steps cf ps None false steps l) = Some st.
 Proof.
   revert l. induction steps as [|s t IH]; intros l H; [discriminate|]. cbn [existsb] in H.
   destruct s as [r c|raw parsed|raw]; cbn [run_steps is_first orb] in *; try now apply IH.
-  destruct (on_request_complete cf ps r c l) as [l1 [st1|st1 f]]; [apply run_steps_some_stays|now exists st1].
+  destruct (on_request_complete cf ps r c l) as [l1 [st1|st1 f]]; [apply run_steps_some_stays|].
+  destruct (escapes f); [now exists st1|apply run_steps_some_stays].
+Qed.
+
+(* after the teardown decision nothing more happens on a connection without an upstream *)
+Lemma drain_no_upstream cf ps st steps l :
+  st_upstream st = false -> run_steps cf ps (Some st) true steps l = (l, Some st).
+Proof.
+  intros H. induction steps as [|s t IH]; [reflexivity|]. cbn [run_steps].
+  destruct s; try exact IH. now rewrite H.
 Qed.
 
 (* ------------------------------------------------------------------ shutdown *)
@@ -553,7 +570,7 @@ Lemma lifecycle_shape cf ps c0 steps :
   lifecycle_total ps -> keeps_keys ps -> (forall t, ctx_ok t c0) ->
   existsb is_first steps = true ->
   exists l0 st dOAL e,
-    run_steps cf ps None steps [] = (l0, Some st)
+    run_steps cf ps None false steps [] = (l0, Some st)
     /\ chain OAL ACtx on_access_log ps c0 l0 = (l0 ++ dOAL, e)
     /\ run_conn cf ps c0 steps =
          l0 ++ dOAL
@@ -564,7 +581,7 @@ Lemma lifecycle_shape cf ps c0 steps :
 Proof.
   intros Ht Hk Hc0 Hf. unfold run_conn.
   destruct (run_steps_initialised cf ps steps [] Hf) as [st Hst].
-  destruct (run_steps cf ps None steps []) as [l0 st'] eqn:E. cbn [snd] in Hst. subst st'.
+  destruct (run_steps cf ps None false steps []) as [l0 st'] eqn:E. cbn [snd] in Hst. subst st'.
   pose proof (chain_dok OAL ACtx on_access_log ps c0 l0) as [dOAL [Hd _]].
   pose proof (chain_oal_total ps c0 l0 Ht) as Hend.
   pose proof (chain_preserves (ctx_ok (rq_tunnel (st_request st))) OAL ACtx on_access_log ps c0 l0) as Hinv.
@@ -618,7 +635,7 @@ Proof.
   intros Ht Hk Hc0 l. destruct (existsb is_first steps) eqn:Hf.
   - destruct (lifecycle_shape cf ps c0 steps Ht Hk Hc0 Hf) as (l0 & st & dOAL & e & Hr & Hc & Hl).
     subst l. rewrite Hl. clear Hl.
-    pose proof (run_steps_pre cf ps None steps []) as Hpre. rewrite Hr in Hpre. cbn [fst] in Hpre.
+    pose proof (run_steps_pre cf ps None false steps []) as Hpre. rewrite Hr in Hpre. cbn [fst] in Hpre.
     destruct Hpre as [d0 [Hd0 Hq0]]. cbn in Hd0. subst d0.
     destruct (chain_calls_prefix OAL ACtx on_access_log ps c0 l0) as (n & d & H1 & H2 & H3 & H4).
     rewrite Hc in H1, H4. cbn [fst snd] in H1, H4. apply app_inv_head in H1. subst d.
@@ -664,13 +681,14 @@ Qed.
 
 Lemma auth_fail_steps cf agent code users r c rest l :
   truthy (Some code) = true -> auth_ok code (rq_headers r) = false ->
-  run_steps cf (auth_plugin agent (Some code) :: users) None (SFirst r c :: rest) l
+  run_steps cf (auth_plugin agent (Some code) :: users) None false (SFirst r c :: rest) l
   = (l ++ [Call AUTH_PID BUC (ARequest r); QueueClient (PROXY_AUTH_FAILED_RESPONSE_PKT agent); Teardown],
      Some (mkState r false None)).
 Proof.
   intros Ht Hno. cbn [run_steps]. unfold on_request_complete.
   cbn [chain auth_plugin before_upstream_connection pid]. unfold AuthPlugin_before_upstream_connection.
-  rewrite Ht. cbn [body_or_empty]. rewrite Hno. cbn [norm_end].
+  rewrite Ht. cbn [body_or_empty]. rewrite Hno. cbn [norm_end escapes].
+  rewrite drain_no_upstream by reflexivity.
   destruct (pkt407_nonempty agent) as (x & t & E). rewrite E. cbn [handle_data_end].
   rewrite <- app_assoc. reflexivity.
 Qed.
@@ -773,10 +791,11 @@ Proof. destruct b; [contradiction|reflexivity]. Qed.
    upstream contact at all, the rest of the history is not processed *)
 Theorem reject_before_connect cf ps r c rest l l1 rx resp :
   chain BUC ARequest before_upstream_connection ps r l = (l1, Rejected rx resp) ->
-  run_steps cf ps None (SFirst r c :: rest) l = (handle_data_end (FReject resp) l1, Some (mkState rx false None))
+  run_steps cf ps None false (SFirst r c :: rest) l = (handle_data_end (FReject resp) l1, Some (mkState rx false None))
   /\ connect_log l1 = connect_log l /\ upstream_queue l1 = upstream_queue l /\ client_queue l1 = client_queue l.
 Proof.
-  intros H. cbn [run_steps]. unfold on_request_complete. rewrite H. cbn [norm_end]. split; [reflexivity|].
+  intros H. cbn [run_steps]. unfold on_request_complete. rewrite H. cbn [norm_end escapes].
+  rewrite drain_no_upstream by reflexivity. split; [reflexivity|].
   pose proof (chain_dok BUC ARequest before_upstream_connection ps r l) as H1. rewrite H in H1. cbn [fst] in H1.
   unfold connect_log, upstream_queue, client_queue.
   rewrite (dok_filter _ is_connect l _ (fun e He => proj1 (call_filters BUC e He)) H1).
@@ -941,19 +960,21 @@ Proof.
       unfold pipe_wf. now rewrite Ep.
 Qed.
 
-Lemma run_steps_clean cf ps st steps l :
+Lemma run_steps_clean cf ps st dr steps l :
   Forall plugin_wf ps -> Forall step_wf steps -> qclean l ->
   match st with Some s => pipe_wf s | None => True end ->
-  qclean (fst (run_steps cf ps st steps l)).
+  qclean (fst (run_steps cf ps st dr steps l)).
 Proof.
-  intros Hp. revert st l. induction steps as [|s t IH]; intros st l Hs Hq Hst; cbn [run_steps]; [exact Hq|].
+  intros Hp. revert st dr l. induction steps as [|s t IH]; intros st dr l Hs Hq Hst; cbn [run_steps]; [exact Hq|].
   inversion Hs as [|? ? Hs1 Hs2]; subst.
   destruct st as [st0|]; destruct s as [r c|raw parsed|raw]; try (now apply IH).
-  - pose proof (on_client_data_clean cf ps st0 raw parsed l Hp Hst) as H.
+  - destruct dr; [now apply IH|].
+    pose proof (on_client_data_clean cf ps st0 raw parsed l Hp Hst) as H.
     cbn [step_wf] in Hs1. specialize (H Hs1 Hq).
     destruct (on_client_data cf ps st0 raw parsed l) as [l1 [st1|st1 f]]; cbn [fst snd end_state] in *; destruct H as [H1 H2].
     + now apply IH.
-    + eapply qclean_dok; [exact H1|apply handle_data_end_noup].
+    + assert (Q : qclean (handle_data_end f l1)) by (eapply qclean_dok; [exact H1|apply handle_data_end_noup]).
+      destruct (escapes f); [exact Q|now apply IH].
   - destruct (st_upstream st0); [|now apply IH].
     pose proof (on_upstream_data_noup ps st0 raw l) as H.
     assert (Hsame : forall st1, snd (on_upstream_data ps st0 raw l) = Continue st1 -> st1 = st0).
@@ -962,10 +983,12 @@ Proof.
     destruct (on_upstream_data ps st0 raw l) as [l1 [st1|st1 f]]; cbn [fst snd] in *.
     + rewrite (Hsame st1 eq_refl). apply IH; [exact Hs2| |exact Hst]. eapply qclean_dok; eassumption.
     + eapply qclean_dok; [eapply qclean_dok; eassumption|apply upstream_data_end_noup].
-  - pose proof (on_request_complete_clean cf ps r c l Hp Hs1 Hq) as H.
+  - destruct dr; [now apply IH|].
+    pose proof (on_request_complete_clean cf ps r c l Hp Hs1 Hq) as H.
     destruct (on_request_complete cf ps r c l) as [l1 [st1|st1 f]]; cbn [fst snd end_state] in *; destruct H as [H1 H2].
     + now apply IH.
-    + eapply qclean_dok; [exact H1|apply handle_data_end_noup].
+    + assert (Q : qclean (handle_data_end f l1)) by (eapply qclean_dok; [exact H1|apply handle_data_end_noup]).
+      destruct (escapes f); [exact Q|now apply IH].
 Qed.
 
 (* over every history: whatever is rebuilt and queued for the upstream server carries neither
@@ -975,8 +998,8 @@ Theorem creds_not_forwarded cf ps c0 steps :
   forall b, In (QueueUpstream QRequest b) (run_conn cf ps c0 steps) -> clean_pkt b.
 Proof.
   intros Hp Hs. unfold run_conn.
-  pose proof (run_steps_clean cf ps None steps [] Hp Hs (fun b H => match H with end) I) as Hq.
-  destruct (run_steps cf ps None steps []) as [l st]. cbn [fst] in Hq.
+  pose proof (run_steps_clean cf ps None false steps [] Hp Hs (fun b H => match H with end) I) as Hq.
+  destruct (run_steps cf ps None false steps []) as [l st]. cbn [fst] in Hq.
   eapply qclean_dok; [exact Hq|]. eapply dok_weaken; [|apply shutdown_post].
   intros e He. destruct e as [p [] a| | | | | | | |]; try discriminate; reflexivity.
 Qed.
